@@ -321,8 +321,11 @@ def run_check(driver, ctx, t0):
         "wall_s": round(wall, 2),
         "violations": violations,
     }
-    os.makedirs(os.path.join(VERIF, "evidence"), exist_ok=True)
-    with open(os.path.join(VERIF, "evidence", prop + ".json"), "w") as f:
+    # a run against another tree (VERIF_REPO=<scratch worktree with a seeded change>) must not overwrite
+    # the evidence of /repo itself
+    evdir = "evidence" if os.environ.get("VERIF_REPO", "/repo").rstrip("/") == "/repo" else os.path.join("replays", "evidence-other-tree")
+    os.makedirs(os.path.join(VERIF, evdir), exist_ok=True)
+    with open(os.path.join(VERIF, evdir, prop + ".json"), "w") as f:
         json.dump(ev, f, indent=1, default=repr)
     for ln in lines:
         print(ln)
